@@ -98,8 +98,7 @@ def run(tier):
     chk = vlib.Check(PID, tier, 'model_checking')
     vlib.build('plain')
     files = zoo.standard_files()
-    if tier == 'thorough':
-        files.update(zoo.large_files())
+    files.update(zoo.large_files())          # links > CHUNKSIZE: quick explores them to depth 2 only, thorough to the fix-point
     exe, listfile, models = seekgraph.load_models(files)
     t_end = time.time() + (240 if tier == 'quick' else 1500)
     tot_states = tot_trans = 0
@@ -112,7 +111,8 @@ def run(tier):
     for i, fm in enumerate(models):
         budget = time.time() + max(5.0, (t_end - time.time()) / (nfiles - i))
         rich = tier == 'thorough'
-        ex = Explorer(exe, listfile, fm, sigma_coarse(rich), make_judge(chk, stats), deadline=budget).explore()
+        big = fm.size > 65536 * 2
+        ex = Explorer(exe, listfile, fm, sigma_coarse(rich), make_judge(chk, stats), deadline=budget, depth_cap=(2 if (big and tier == 'quick') else 99)).explore()
         bad = ex.validate_merges()
         bis += ex.bisim_checked
         for b in bad[:3]:
@@ -122,6 +122,8 @@ def run(tier):
         tot_states += len(ex.states)
         tot_trans += ex.trans
         all_fix = all_fix and ex.fixpoint
+        if big and tier == 'quick':
+            continue
         # fine alphabet, depth-bounded (adds sample-granular reads and 16-bit reads)
         dcap = 2 if tier == 'quick' else 4
         ex2 = Explorer(exe, listfile, fm, sigma_fine(dcap, False), make_judge(chk, stats), depth_cap=dcap, deadline=budget + 10).explore()
